@@ -621,7 +621,7 @@ fn run(case: &Value) -> Obs {
     let mut fail: Option<(String, &'static str)> = None;
     let mut note = |f: (String, &'static str), fail: &mut Option<(String, &'static str)>| {
         // a new class has priority over a known one
-        let known = |s: &str| s.starts_with("cut-in-") || s == "error-inside-compressed-chain";
+        let known = |s: &str| s == "error-inside-compressed-chain";
         match fail {
             None => *fail = Some(f),
             Some((_, s0)) if known(s0) && !known(f.1) => *fail = Some(f),
@@ -663,7 +663,7 @@ fn run(case: &Value) -> Obs {
                 } else {
                     sch.push(json!(hex(&out)));
                     let class = classify_schedule(&fs, &plain_headers, &chunks).unwrap_or("safe-cuts");
-                    note((format!("schedule {i}: plain chain differs from its single-chunk run ({class})"), class), &mut fail);
+                    note((format!("schedule {i}: plain chain differs from its single-chunk run (context of the cuts: {class})"), "chunk-variance"), &mut fail);
                 }
             }
             continue;
@@ -692,8 +692,9 @@ fn run(case: &Value) -> Obs {
                     n_flush_cuts += inner_chunks.len();
                     let glue = if inner_chunks.is_empty() { run_chain(&fs, &plain_headers, &[]) } else { run_chain(&fs, &plain_headers, &inner_chunks) };
                     if glue.concat() == dec {
+                        // the glue is right: the inner chain is not chunk-invariant at the decoder's flush points (C03)
                         let class = classify_schedule(&fs, &plain_headers, &inner_chunks).unwrap_or("safe-cuts");
-                        note((format!("schedule {i}: decode(out) differs from filter_plain(b); same as the plain chain on the decoder's chunks ({class})"), class), &mut fail);
+                        note((format!("schedule {i}: decode(out) differs from filter_plain(b); same as the plain chain on the decoder's chunks (context of the flush points: {class})"), "chunk-variance"), &mut fail);
                     } else {
                         note((format!("schedule {i}: decode(out) differs from the plain chain run on the decoder's chunks"), "compressed-glue-differs"), &mut fail);
                     }
